@@ -852,8 +852,26 @@ class Evaluator:
         # explicit raise leaves of a caught type continue in the handler, and a broad handler may also
         # be entered by an exception raised inside a callee we only summarise.
         if st.finalbody:
-            self._havoc_targets(st, fr, 'try/finally')
-            return T.opaque('try/finally at line %d' % st.lineno)
+            # a clean-up block that cannot itself leave the function (no return / raise / break / continue in it) runs on every
+            # exit and changes no outcome: the statement is its try-part, followed by the effects of the clean-up
+            leaves_fn = any(isinstance(n, (ast.Return, ast.Raise, ast.Break, ast.Continue, ast.Yield, ast.YieldFrom))
+                            for s_ in st.finalbody for n in ast.walk(s_))
+            if leaves_fn:
+                self._havoc_targets(st, fr, 'try/finally')
+                return T.opaque('try/finally at line %d (the finally block can leave the function)' % st.lineno)
+            inner = ast.Try(body=st.body, handlers=list(handlers), orelse=st.orelse, finalbody=[])
+            ast.copy_location(inner, st)
+            if handlers:
+                r = self._generic_try(inner, handlers, fr)
+            else:
+                r = self.block(st.body, fr)
+                if st.orelse and (r is FALL or _has_fall(r)):
+                    r2 = self.block(st.orelse, fr)
+                    r = r2 if r is FALL else _replace_fall(r, r2)
+            rf = self.block(st.finalbody, fr)
+            if rf is not FALL and not (T.tag(rf) != 'phi' and rf == FALL):
+                return T.opaque('try/finally at line %d (clean-up block with an outcome of its own)' % st.lineno)
+            return r
         env0, facts0 = dict(fr.env), fr.facts
         self.explicit_contracts = getattr(self, 'explicit_contracts', 0) + 1
         try:
